@@ -262,6 +262,8 @@ def run(chk):
             heavy.append(("VarTimeMultiScalarMult %d %s" % (n, st), lambda n=n, st=st: c01.run_one(base, chk, "VarTimeMultiScalarMult", st, n)))
             items.append(("MultiScalarMult %d %s" % (n, st), lambda n=n, st=st: c01.run_one(base, chk, "MultiScalarMult", st, n)))
         items.append(("ScalarMult " + st, lambda st=st: c01.run_one(base, chk, "ScalarMult", st)))
+    heavy.append(("VarTimeMultiScalarMult alias_last", lambda: c01.run_one(base, chk, "VarTimeMultiScalarMult", "alias_last", 2)))
+    items.append(("MultiScalarMult alias_last", lambda: c01.run_one(base, chk, "MultiScalarMult", "alias_last", maxn)))
     heavy.append(("VarTimeMultiScalarMult dup", lambda: c01.run_one(base, chk, "VarTimeMultiScalarMult", "other", 2, True)))
     items.append(("MultiScalarMult dup", lambda: c01.run_one(base, chk, "MultiScalarMult", "other", 2, True)))
     items.append(("ScalarBaseMult", lambda: c01.run_one(base, chk, "ScalarBaseMult", "other")))
